@@ -29,6 +29,7 @@ def check(chk, thorough=False):
     chk.run('C13.g', 'R-FLOW', 'a queued bundle is measured at its end and sent from its start; a transfer id of 0 is a transfer id (no truthiness test); received items get local ids only', lambda ob: c13g(tree, ob, UAGENT), floor=4)
     chk.run('C13.h', 'R-FLOW', 'the send entry queues a file over exactly the octets passed in (byte-array conversion only)', lambda ob: __import__('sa.props.common', fromlist=['entry_fidelity']).entry_fidelity(tree, ob, 'udpcl/agent.py', 'Agent.send_bundle_data'), floor=1)
     chk.run('C13.i', 'R-TRUTH', 'the MTU applied is the configured one: the configuration loader hands every setting on as read', lambda ob: __import__('sa.props.common', fromlist=['config_verbatim']).config_verbatim(tree, ob, 'udpcl/config.py'), floor=2)
+    chk.run('C13.j', 'R-FRESH', 'the queues, maps and pacing state of a UDPCL agent belong to that agent object (created per instance, no shared default objects)', lambda ob: (__import__('sa.props.common', fromlist=['per_instance_state', 'fresh_defaults']).per_instance_state(tree, ob, 'udpcl/agent.py', ('Agent', 'TxSendWait')), __import__('sa.props.common', fromlist=['per_instance_state', 'fresh_defaults']).fresh_defaults(tree, ob, ['udpcl/agent.py', 'udpcl/config.py'])), floor=3)
     chk.run('C13.f', 'R-PAIR', 'queue then announce the same id; ids come from a counter that only increments', lambda ob: c13f(tree, ob), floor=3)
 
 
